@@ -402,7 +402,48 @@ def run(tier, seed):
                 mt = re.search(r"Total Errors\s+(\d+)", so)
                 if str(rc) != mm["exit"] or (mt and mt.group(1) != mm["total"]):
                     chk.disagreements.append({"stream": "cli-toml", "args": " ".join(j["mode"]), "custom": j["keys"], "impl": {"exit": rc, "total": mt.group(1) if mt else None}, "model": lm[:200]})
-    chk.add_stream("cli-toml", len(jobs), cdist, csamples, distribution={"inputs": nc, "runs": len(jobs)})
+    # ---- the same two end-of-run checks in the runs that print no report (views, filtered data to stdout, a check writing its data to
+    #      stdout): observed through the exit status and the statistics file (seed C20-G)
+    rjobs = []
+    for j in [j for j in jobs if j["nofile"] and not j["stave"]][: (20 if deep else 6)]:
+        t = j["truth"]
+        link = j["data"][12]
+        for key in ("cdps", "triggers_pht"):
+            for dv in (0, 1, -1):
+                v = t[key] + dv
+                if v < 0:
+                    continue
+                for mode in (["view", "rdh"], ["-f", str(link)], ["check", "sanity", "-f", str(link), "-o", "stdout"]):
+                    if key == "triggers_pht" and mode[0] != "view":
+                        continue    # trigger types are counted over the ANALYSED packets: none without a sub-command, the filtered ones with a filter
+                    rjobs.append({"path": j["path"], "data": j["data"], "mode": mode, "key": key, "value": v, "truth": t[key], "s": j["s"]})
+
+    def rwork(j):
+        tp = os.path.join(tmp, "rl_%d.toml" % id(j))
+        sp = os.path.join(tmp, "rl_%d.json" % id(j))
+        open(tp, "w").write("%s = %d\n" % (j["key"], j["value"]))
+        rc, so, se, dt = core.run_cli([j["path"]] + j["mode"] + ["-c", tp, "-E", "77", "-S", sp, "-D", "json"], timeout=120)
+        st = None
+        if os.path.exists(sp):
+            try:
+                st = json.load(open(sp))
+            except Exception:
+                st = None
+            os.remove(sp)
+        return rc, st, ANSI.sub("", se.decode("utf8", "replace"))
+    for j, (rc, st, se) in zip(rjobs, core.par_map(rwork, rjobs)):
+        if "panicked at" in se:
+            continue
+        code = "9001" if j["key"] == "cdps" else "9002"
+        want = j["value"] != j["truth"]
+        stored = st is not None and any("[E%s]" % code in m for m in st.get("error_stats", {}).get("custom_checks_stats_errors", []))
+        cdist.add(("report-less", tuple(j["mode"][:2]), j["key"], want))
+        if stored != want or rc != (77 if want else 0):
+            chk.spec_violations.append({"stream": "cli-toml", "args": " ".join(j["mode"]), "custom": {j["key"]: j["value"]}, "truth": j["truth"],
+                                        "exit": rc, "expected_exit": 77 if want else 0, "error_in_statistics_file": stored,
+                                        "input_hex": j["data"].hex().upper() if len(j["data"]) <= 1500 else "(stream %d of seed %d, %d bytes)" % (j["s"], seed, len(j["data"])),
+                                        "what": "a run that prints no report (view / data to stdout) does not enforce the configured packet / PhT count exactly"})
+    chk.add_stream("cli-toml", len(jobs) + len(rjobs), cdist, csamples, distribution={"inputs": nc, "runs": len(jobs), "report_less_runs": len(rjobs)})
     shutil.rmtree(tmp, ignore_errors=True)
     chk.cov["rule"] = ("period: stave-level conforming links whose internal-trigger TDHs follow bc_{k+1} = bc_k + P (mod 3564, orbit carried; P in 0..3563 incl. 0 (one trigger per orbit), divisors of 3564 and "
                        "3563), run with P and P+-1, one trigger moved by +-1 BC, physics-only TDHs in between, one trigger missing; frames split over pages (continuation TDHs); "
